@@ -8,7 +8,7 @@ PID = "C15"
 RULE = ("closed polygonal curves (int/Fraction/float) and curved curves (circle arcs, quadratic/cubic pieces, float) x "
         "multisets of (segment, parameter) pairs: parameters k/100, parameters at / within 1e-6 of 0 and 1, repeated and "
         "nearly equal parameters (0, 1e-17, 1e-12, 5e-7, 1e-5 apart; F15/F15c repaired), repeated split/clean sequences; "
-        "a parabola arc split at two parameters 0.002..0.03 apart (short pieces get degree-reduced: junctions on the curve within 1e-6, F25 repaired); "
+        "a parabola arc, at the origin and up to 300 units away, split at two parameters 0.002..0.05 apart (short pieces get degree-reduced: junctions on the curve within 1e-6, F25 repaired); "
         "observables: vertices, orientation, area, segments[i](t) on a grid, == with the "
         "original after clean; non-trivial = at least one parameter survives the 1e-6 filter; distinct = SHA-1")
 PROOF_STATUS = ("Props/C15.v: retrace, junctions at the split parameters, no zero-length piece, area / winding number / "
@@ -65,10 +65,11 @@ def cases(ctx):
         yield {"k": "circle", "nd": rng.choice([4, 8, 16]), "r": rng.choice([1.0, 2.5]),
                "idx": [rng.randrange(4) for _ in range(3)], "nodes": [rng.choice([0.25, 0.5, 0.375, 0.7]) for _ in range(3)]}
     # curved pieces short enough to be degree-reduced: the junctions must stay on the curve (F25 repaired)
-    for i in range(ctx.n(6, 80)):
+    for i in range(ctx.n(14, 160)):
         t = rng.choice([0.3, 0.56, 0.71])
         yield {"k": "cap", "a": rng.choice([1.0, 2.0, 3.0]), "h": rng.choice([1.0, 2.0, 4.0]),
-               "nodes": [t, t + rng.choice([0.002, 0.005, 0.01, 0.03])]}
+               "nodes": [t, t + rng.choice([0.002, 0.005, 0.01, 0.03, 0.05])],
+               "at": rng.choice([(0.0, 0.0), (12.0, 9.0), (-20.0, 15.0), (30.5, 40.0), (-300.0, 100.0)])}
 
 
 def nontrivial(case):
@@ -80,18 +81,19 @@ def check(ctx, case):
     ctx.count("kind:" + case["k"])
     if case["k"] == "cap":
         a, h = case["a"], case["h"]
-        J = I.JordanCurve.from_ctrlpoints([[(-a, 0.0), (a, 0.0)], [(a, 0.0), (0.0, 2 * h), (-a, 0.0)]])
+        ox, oy = case.get("at", (0.0, 0.0))          # the same arc anywhere in the plane
+        J = I.JordanCurve.from_ctrlpoints([[(-a + ox, oy), (a + ox, oy)], [(a + ox, oy), (ox, 2 * h + oy), (-a + ox, oy)]])
         r = I.outcome(lambda: J.split([1, 1], list(case["nodes"])))
         if r[0] != "ok":
             return [Fail(kind="O", what="split raised on a parabola arc", impl=r)]
-        arc = lambda t: (a * (1 - 2 * t), h * (1 - (1 - 2 * t) ** 2))
+        arc = lambda t: (a * (1 - 2 * t) + ox, h * (1 - (1 - 2 * t) ** 2) + oy)
         segs = J.segments
         if len(segs) != 4:
             return [Fail(kind="O", what="two interior parameters must give three pieces", impl=len(segs))]
         for k, t in enumerate(case["nodes"]):
             q = segs[1 + k].ctrlpoints[-1]
             want = arc(t)
-            if abs(float(q[0]) - want[0]) > 1e-6 or abs(float(q[1]) - want[1]) > 1e-6:
+            if abs(float(q[0]) - want[0]) > 1e-6 * max(1.0, abs(ox)) or abs(float(q[1]) - want[1]) > 1e-6 * max(1.0, abs(oy)):
                 fails.append(Fail(kind="O", what="junction of curved pieces is not on the original curve at the split parameter (1e-6)",
                                   impl=[float(q[0]), float(q[1])], expected=list(want)))
             if segs[1 + k].ctrlpoints[-1] is not segs[2 + k].ctrlpoints[0]:
@@ -99,10 +101,10 @@ def check(ctx, case):
         for sg in segs[1:]:
             # a piece the library degree-reduced may leave the curve by what its tolerance (squared L2 error 1e-9)
             # permits: the chord of such a piece is at most 1.1e-4 away; other pieces stay on the curve (1e-6)
-            lim = 2e-4 if sg.degree == 1 else 1e-6
+            lim = 2e-4 if sg.degree == 1 else 1e-6 * max(1.0, abs(ox), abs(oy))
             for x in (0.0, 0.5, 1.0):
                 q = sg(x)
-                if abs(float(q[1]) - h * (1 - (float(q[0]) / a) ** 2)) > lim:
+                if abs(float(q[1]) - oy - h * (1 - ((float(q[0]) - ox) / a) ** 2)) > lim:
                     fails.append(Fail(kind="O", what="piece leaves the parabola", impl=[float(q[0]), float(q[1])]))
         ctx.count("cap:reduced" if any(sg.degree == 1 for sg in segs[1:]) else "cap:kept")
         return fails
